@@ -375,6 +375,9 @@ class _WaveWriteProxy:
         s = _sim()
         if s is not None:
             s.step("wav.write", (self._label, len(data)))
+            st = FILE_STALL.get("plan")
+            if st is not None:
+                st.maybe_stall(s)   # slow disk
         return self._real.writeframes(data)
 
     def writeframesraw(self, data):
